@@ -95,7 +95,7 @@ def unit_sd(m, unit):
         if base not in BASES or float(p) != int(p):
             raise ValueError('unit outside the eight integer base dimensions: %s' % unit)
         dims[BASES.index(base)] = int(p)
-    return repr(float(q.magnitude)), dims
+    return '%.12g' % float(q.magnitude), dims
 
 
 def enc(m, ids, e):
@@ -574,7 +574,7 @@ def opt(a):
 
 
 def compare_snap(k, snap, rep, step):
-    ret, raised, mvars, meqs, mvd, mod, mfree, mcm, _mrep, mvals = rep
+    ret, raised, mvars, meqs, mvd, mod, mfree, mcm, _mrep, mvals, munits = rep
     where = 'after call %d: ' % k if k else 'initial model: '
     if str(raised) != 'false':
         return where + 'the model says a call raised'
@@ -603,6 +603,9 @@ def compare_snap(k, snap, rep, step):
         return where + 'free variable: model %s, implementation %s' % (mfree, snap['free'])
     if sorted([str(c), int(v)] for c, v in mcm) != snap['cmeta']:
         return where + 'cmeta map: model %s, implementation %s' % (mcm, snap['cmeta'])
+    for i, (mu, iu) in enumerate(zip(munits, snap['units'])):
+        if str(mu) != 'none' and (str(mu) == 'true') != (iu is True):
+            return where + 'units of equation %d (%s): model consistent=%s, implementation %s' % (i, snap['eqtext'][i], mu, iu)
     names = [v[0] for v in snap['vars']]
     for p, (mv, md) in enumerate(mvals):
         for i, val in enumerate(mv):
